@@ -110,6 +110,60 @@ theorem RouteInv.enqueue {s s' : St} {ob : Obs} (h : RouteInv s) (i : Nat) (tmo 
         rw [← hs.1]
         exact h.ops_only (tame_set s.ops i o _ ho rfl (fun f hf => hf)) rfl rfl rfl rfl rfl
 
+/-- `ops` changes tamely and the receiver flag of at most one channel is cleared -/
+theorem RouteInv.ops_dropRx {s s' : St} (h : RouteInv s) (hops : Tame s.ops s'.ops) (oc : Option Nat)
+    (hc : s'.chans = dropRxOf s.chans oc)
+    (hr : s'.resultmap = s.resultmap) (hsm : s'.searchmap = s.searchmap)
+    (hl : s'.srvLog = s.srvLog) (hp : s'.pos = s.pos) : RouteInv s' := by
+  have hget : ∀ (d : Nat), (∃ chd, s.chans[d]? = some chd) → ∃ chd chd', s.chans[d]? = some chd ∧ s'.chans[d]? = some chd' ∧
+      chd'.opIdx = chd.opIdx ∧ chd'.items = chd.items := by
+    intro d ⟨chd, hd⟩
+    rw [hc]
+    cases oc with
+    | none => exact ⟨chd, chd, hd, hd, rfl, rfl⟩
+    | some c =>
+      simp only [dropRxOf, modifyChan_get]
+      split
+      · next hdc => subst hdc; rw [hd]; exact ⟨chd, _, rfl, rfl, rfl, rfl⟩
+      · exact ⟨chd, chd, hd, hd, rfl, rfl⟩
+  have hback : ∀ (d : Nat) (chd' : Chan), s'.chans[d]? = some chd' → ∃ chd, s.chans[d]? = some chd ∧
+      chd'.opIdx = chd.opIdx ∧ chd'.items = chd.items := by
+    intro d chd' hd'
+    rw [hc] at hd'
+    cases oc with
+    | none => exact ⟨chd', hd', rfl, rfl⟩
+    | some c =>
+      simp only [dropRxOf, modifyChan_get] at hd'
+      split at hd'
+      · next hdc =>
+        subst hdc
+        cases hcd : s.chans[d]? with
+        | none => rw [hcd] at hd'; cases hd'
+        | some chd =>
+          rw [hcd] at hd'
+          simp only [Option.map_some, Option.some.injEq] at hd'
+          subst hd'
+          exact ⟨chd, rfl, rfl, rfl⟩
+      · exact ⟨chd', hd', rfl, rfl⟩
+  apply h.transfer hops.sameSig
+  · intro j o' ho'
+    obtain ⟨o, ho, hs, _⟩ := hops.2 j o' ho'
+    exact Or.inl ⟨o, ho, hs⟩
+  · intro j o' f ho' hm
+    obtain ⟨o, ho, _, hmm⟩ := hops.2 j o' ho'
+    exact Or.inl ⟨o, ho, hmm f hm⟩
+  · intro d chd hd
+    obtain ⟨chd0, chd', h0, h1, h2, _⟩ := hget d ⟨chd, hd⟩
+    rw [hd] at h0; cases h0
+    exact ⟨chd', h1, h2⟩
+  · intro d chd' hd'
+    obtain ⟨chd, h0, h1, h2⟩ := hback d chd' hd'
+    exact Or.inl ⟨chd, h0, h1, Or.inl h2⟩
+  · intro p hp'; rw [hr] at hp'; exact Or.inl hp'
+  · intro p hp'; rw [hsm] at hp'; exact Or.inl hp'
+  · rw [hl, hp]; exact List.prefix_refl _
+  · rw [hl, hp]; exact h.posLe
+
 theorem RouteInv.poll {s s' : St} {ob : Obs} (h : RouteInv s) (i : Nat)
     (hs : step s (.poll i) = some (s', ob)) : RouteInv s' := by
   simp only [step] at hs
@@ -122,15 +176,19 @@ theorem RouteInv.poll {s s' : St} {ob : Obs} (h : RouteInv s) (i : Nat)
     · cases hs
     · have hset : ∀ r : Option Res, RouteInv { s with ops := s.ops.set i { o with res := r } } := fun r =>
         h.ops_only (tame_set s.ops i o _ ho rfl (fun f hf => hf)) rfl rfl rfl rfl rfl
-      have hset2 : ∀ (r : Option Res) (q : List Nat), RouteInv { s with ops := s.ops.set i { o with res := r }, scrubQ := q } := fun r q =>
-        h.ops_only (tame_set s.ops i o _ ho rfl (fun f hf => hf)) rfl rfl rfl rfl rfl
+      have hset2 : ∀ (r : Option Res) (q : List Nat),
+          RouteInv { s with ops := s.ops.set i { o with res := r }, scrubQ := q, chans := dropRxOf s.chans o.chan } := fun r q =>
+        h.ops_dropRx (tame_set s.ops i o _ ho rfl (fun f hf => hf)) o.chan rfl rfl rfl rfl rfl
+      have hset3 : ∀ (r : Option Res),
+          RouteInv { s with ops := s.ops.set i { o with res := r }, chans := dropRxOf s.chans o.chan } := fun r =>
+        h.ops_dropRx (tame_set s.ops i o _ ho rfl (fun f hf => hf)) o.chan rfl rfl rfl rfl rfl
       split at hs
-      all_goals (try (simp only [Option.some.injEq, Prod.mk.injEq] at hs; rw [← hs.1]; first | exact hset _ | exact h))
+      all_goals (try (simp only [Option.some.injEq, Prod.mk.injEq] at hs; rw [← hs.1]; first | exact hset _ | exact hset3 _ | exact h))
       split at hs
       · split at hs
         · split at hs
           · simp only [Option.some.injEq, Prod.mk.injEq] at hs; rw [← hs.1]; exact hset2 _ _
-          · simp only [Option.some.injEq, Prod.mk.injEq] at hs; rw [← hs.1]; exact hset _
+          · simp only [Option.some.injEq, Prod.mk.injEq] at hs; rw [← hs.1]; exact hset3 _
         · simp only [Option.some.injEq, Prod.mk.injEq] at hs; rw [← hs.1]; exact h
       · simp only [Option.some.injEq, Prod.mk.injEq] at hs; rw [← hs.1]; exact h
 
